@@ -13,6 +13,9 @@ fn trace_line(kind: &str, n: u64, threads: usize, k: usize) {
 
 fn quick(x: u64) -> u64 { x * 10 }
 
+// how many items parallel_map has pulled from its input iterator (read-ahead is bounded by consumed + threads, also at drop)
+static PULLED: std::sync::atomic::AtomicUsize = std::sync::atomic::AtomicUsize::new(0);
+
 fn slow_first(x: u64) -> u64 {
     // the first worker is the slowest: everybody else runs ahead as far as the protocol lets them
     if x % 3 == 0 { std::thread::sleep(std::time::Duration::from_millis(6)); }
@@ -48,10 +51,13 @@ fn pmap_cases() {
             // early drop after k results
             for k in [0usize, 1, 2, (n as usize) / 2] {
                 if k as u64 > n { continue; }
-                let mut it = parallel_map(work, 0..n, t);
+                PULLED.store(0, std::sync::atomic::Ordering::SeqCst);
+                let mut it = parallel_map(work, (0..n).inspect(|_| { PULLED.fetch_add(1, std::sync::atomic::Ordering::SeqCst); }), t);
                 let mut got = Vec::new();
                 for _ in 0..k { if let Some(v) = it.next() { got.push(v); } }
+                let pulled_before_drop = PULLED.load(std::sync::atomic::Ordering::SeqCst);
                 drop(it);
+                let pulled = PULLED.load(std::sync::atomic::Ordering::SeqCst);
                 trace_line("drop", n, t, k);
                 // `drop` joins every worker; a joined thread may still be listed in /proc/self/task for a moment
                 // (the joiner is woken before the kernel unlinks the task), so allow it a grace period
@@ -62,7 +68,7 @@ fn pmap_cases() {
                     waited += 1;
                     alive = threads_now().saturating_sub(base);
                 }
-                println!("PMAP {{\"kind\":\"drop\",\"n\":{},\"threads\":{},\"k\":{},\"out\":{:?},\"threads_alive\":{}}}", n, t, k, got, alive);
+                println!("PMAP {{\"kind\":\"drop\",\"n\":{},\"threads\":{},\"k\":{},\"out\":{:?},\"threads_alive\":{},\"pulled_before_drop\":{},\"pulled\":{}}}", n, t, k, got, alive, pulled_before_drop, pulled);
             }
         }
     }
@@ -72,6 +78,23 @@ fn pmap_cases() {
         let out: Vec<u64> = parallel_map(|x| x * 10, 0..n, t).collect();
         trace_line("full", n, t, 0);
         println!("PMAP {{\"kind\":\"full\",\"n\":{},\"threads\":{},\"out\":{:?}}}", n, t, out);
+    }
+    // one long pause of the consumer (an evaluation / checkpoint between two training steps): PMAP_LONG_STALL_MS
+    {
+        let ms: u64 = std::env::var("PMAP_LONG_STALL_MS").ok().and_then(|v| v.parse().ok()).unwrap_or(10500);
+        let (n, t) = (9u64, 2usize);
+        let _ = verif::take();
+        let mut it = parallel_map(quick, 0..n, t);
+        let mut got = Vec::new();
+        let mut i = 0;
+        while let Some(v) = it.next() {
+            got.push(v);
+            i += 1;
+            if i == 3 { std::thread::sleep(std::time::Duration::from_millis(ms)); }
+        }
+        drop(it);
+        trace_line("full", n, t, 0);
+        println!("PMAP {{\"kind\":\"stall\",\"n\":{},\"threads\":{},\"out\":{:?}}}", n, t, got);
     }
     // a consumer that stalls between two calls (a slow training step)
     for (n, t) in [(8u64, 2usize), (6, 3)] {
